@@ -5,6 +5,10 @@ VERIF = os.path.dirname(os.path.dirname(os.path.abspath(__file__)))
 ALL = ["C%02d" % i for i in range(1, 21)]
 
 CLAIMED = {
+ "C03": dict(
+    text="Generated dies (blockages, specialised and fixed regions, optionally refined by split_refinable_regions / initial_grid) with compatible netlists (fixed modules on the die's fixed rectangles; soft modules with rectangles or centre-only squares, hard modules; overlapping each other, blockages, fixed cells, sticking out of the die), both include-zero settings; oracle: expected[cell][module] = exact intersection area / cell area from the source model in Fractions (40-digit sqrt for squares), fixed cells owned {F: 1.0} and nothing else, allocated module area = exact covered area, listing only on overlap.",
+    note="Trusted: exact geometry, the die's own cell list (C01 / C11). Tolerance 1e-9 absolute on ratios; 'not listed' asserted only one lattice step clear of contact. Modules overlapping no refinable cell are outside the quantifier.",
+    technique="property-based testing (Hypothesis) against an exact-arithmetic reference model", ref="4/C03"),
  "C02": dict(
     text="Generated operation histories (model-based: initial allocation + 1-4 operations among refine(threshold, levels), uniform_refinement_depth, griddify, thresholds drawn from the current state) with an invariant checked after every step against the previous and the ORIGINAL allocation in Fraction arithmetic: parent containment, same tag and occupancy map, children tile their parent, module areas and centroids conserved, fixed cells uncut (griddify, refine < 1), no exception.",
     note="Trusted: exact geometry, exact module area/centroid computed from the original snapshot. Fixed cells under uniform refinement / refine(1.0) are deliberately not asserted (spec conflict, DESIGN 4/C02).",
